@@ -26,6 +26,8 @@ func init() {
 		fmt.Println("hdrsize", ruleHeaderSizeIsSize(c, r))
 		fmt.Println("omode", ruleAdoptLeavesLazy(c, r))
 		fmt.Println("opair", ruleLazySampleCounted(c, r))
+		fmt.Println("sizechk", ruleSizeCheckEveryPath(c, r))
+		fmt.Println("rawdefault", ruleRawBeforeDefault(c, r, nil))
 		for _, o := range r.Obls {
 			if o.Status != Discharged || !strings.HasPrefix(o.Key, "L-SHAREDCHILD") && !strings.HasPrefix(o.Key, "L-PROGRESS") && !strings.HasPrefix(o.Key, "O-HDRFIRST") {
 				fmt.Println(o.Status, o.Key, o.Pos, o.Detail)
@@ -1673,4 +1675,263 @@ func blockRejectsDefinitely(b *ssa.BasicBlock) bool {
 		return false
 	}
 	return definiteError(ret.Results[len(ret.Results)-1])
+}
+
+// ---- O-SIZECHK: a decoder that validates the declared size does so on every accepting path -------------------
+
+// ruleSizeCheckEveryPath (O-SIZECHK): in a box decoder (Decode*SR in package mp4) that rejects when the declared box
+// size (hdr.Size / hdr.payloadLen()) is not equal to a computed one, no return with a decoded box is reachable from the
+// entry without passing one of those comparisons: a check that only one arm of a branch performs lets the other arm
+// accept a box whose declared size disagrees with what was read (the re-encoded box then has another size).
+func ruleSizeCheckEveryPath(c *Ctx, r *Report) int {
+	n := 0
+	for _, f := range libFuncs(c, func(f *ssa.Function) bool { return strings.HasPrefix(SSAFuncName(f), "mp4.Decode") }) {
+		if len(f.Params) == 0 || !strings.HasSuffix(f.Name(), "SR") {
+			continue
+		}
+		var hdr *ssa.Parameter
+		for _, p := range f.Params {
+			if typeName(p.Type()) == "BoxHeader" {
+				hdr = p
+			}
+		}
+		if hdr == nil {
+			continue
+		}
+		cut := map[*ssa.BasicBlock]bool{}
+		for _, b := range f.Blocks {
+			ifi, ok := b.Instrs[len(b.Instrs)-1].(*ssa.If)
+			if !ok {
+				continue
+			}
+			bo, ok := ifi.Cond.(*ssa.BinOp)
+			if !ok {
+				continue
+			}
+			// an equality between the declared size and what the fields read account for (a `<` is a guard of one arm)
+			if bo.Op != token.EQL && bo.Op != token.NEQ {
+				continue
+			}
+			// integers only (`err != nil` of a helper that was handed the size is not a size equality)
+			if bt, ok := bo.X.Type().Underlying().(*types.Basic); !ok || bt.Info()&types.IsInteger == 0 {
+				continue
+			}
+			if !returnsNilBox(b.Succs[0]) && !returnsNilBox(b.Succs[1]) {
+				continue
+			}
+			dep := false
+			for _, o := range []ssa.Value{bo.X, bo.Y} {
+				sl := backSlice(c, o, 0)
+				if sliceHas(sl, "field", "BoxHeader.Size") || sliceHas(sl, "call", "BoxHeader.payloadLen") {
+					dep = true
+				}
+			}
+			if dep {
+				cut[b] = true
+			}
+		}
+		if len(cut) == 0 {
+			continue
+		}
+		n++
+		key := SSAFuncName(f) + ":size-validated-on-every-accepting-path"
+		seen := map[*ssa.BasicBlock]bool{}
+		var bad *ssa.BasicBlock
+		var walk func(b *ssa.BasicBlock)
+		walk = func(b *ssa.BasicBlock) {
+			if seen[b] || cut[b] || bad != nil {
+				return
+			}
+			seen[b] = true
+			if ret, ok := b.Instrs[len(b.Instrs)-1].(*ssa.Return); ok && len(ret.Results) == 2 {
+				if k, isC := ret.Results[0].(*ssa.Const); !(isC && k.Value == nil) {
+					bad = b
+					return
+				}
+			}
+			for _, s := range b.Succs {
+				walk(s)
+			}
+		}
+		walk(f.Blocks[0])
+		if bad != nil {
+			r.Bad("O-SIZECHK", key, c.Pos(firstPos(bad)), "a path returns the decoded box without passing any of the decoder's comparisons with the declared box size: on that path a box whose size field disagrees with what was read is accepted")
+		} else {
+			r.OK("O-SIZECHK", key, c.Pos(f.Pos()), fmt.Sprintf("every accepting path passes a comparison with the declared size (%d)", len(cut)))
+		}
+	}
+	return n
+}
+
+// ---- L-RAWDEFAULT: a defaulted value is not used raw ---------------------------------------------------------------
+
+// ruleRawBeforeDefault (L-RAWDEFAULT): where a parameter is given a default under a test of its zero value
+// (`if config == "" { config = "WEBVTT" }`: a phi of the parameter and a constant), the raw parameter is not also
+// stored into a struct or handed to a constructor: what was built from it misses the default. Returns the number of
+// defaulted parameters.
+func ruleRawBeforeDefault(c *Ctx, r *Report, scope func(*ssa.Function) bool) int {
+	n := 0
+	for _, f := range libFuncs(c, scope) {
+		for _, p := range f.Params {
+			if p.Referrers() == nil {
+				continue
+			}
+			var def *ssa.Phi
+			for _, ref := range *p.Referrers() {
+				ph, ok := ref.(*ssa.Phi)
+				if !ok || len(ph.Edges) != 2 {
+					continue
+				}
+				other := ph.Edges[0]
+				if other == ssa.Value(p) {
+					other = ph.Edges[1]
+				}
+				if _, isC := other.(*ssa.Const); !isC {
+					continue
+				}
+				// the branch that leads to the phi tests p against its zero value
+				for _, pr := range ph.Block().Preds {
+					for d := pr; d != nil; d = d.Idom() {
+						if ifi, ok := d.Instrs[len(d.Instrs)-1].(*ssa.If); ok {
+							if bo, ok := ifi.Cond.(*ssa.BinOp); ok && (bo.Op == token.EQL || bo.Op == token.NEQ) && (bo.X == ssa.Value(p) || bo.Y == ssa.Value(p)) {
+								def = ph
+							}
+							break
+						}
+					}
+				}
+			}
+			if def == nil {
+				continue
+			}
+			n++
+			key := fmt.Sprintf("%s:%s", SSAFuncName(f), p.Name())
+			var raw ssa.Instruction
+			for _, ref := range *p.Referrers() {
+				switch x := ref.(type) {
+				case *ssa.Store:
+					if _, isF := x.Addr.(*ssa.FieldAddr); isF && x.Val == ssa.Value(p) {
+						raw = x
+					}
+				case *ssa.Call:
+					if h := x.Call.StaticCallee(); h != nil && h.Pkg == f.Pkg && (strings.HasPrefix(h.Name(), "Create") || strings.HasPrefix(h.Name(), "New")) {
+						raw = x
+					}
+				}
+			}
+			if raw != nil {
+				r.Bad("L-RAWDEFAULT", key, c.Pos(raw.Pos()), fmt.Sprintf("the parameter %s is given a default when empty, but its raw value is also stored or handed to a constructor: what is built from it misses the default", p.Name()))
+			} else {
+				r.OK("L-RAWDEFAULT", key, c.Pos(def.Pos()), "only the defaulted value is stored or handed on")
+			}
+		}
+	}
+	return n
+}
+
+// returnsNilBox: the block (through jumps) returns (nil, err): the decoder's way of rejecting.
+func returnsNilBox(b *ssa.BasicBlock) bool {
+	for i := 0; i < 6 && b != nil && len(b.Instrs) > 0; i++ {
+		switch x := b.Instrs[len(b.Instrs)-1].(type) {
+		case *ssa.Return:
+			if len(x.Results) == 2 {
+				if k, isC := x.Results[0].(*ssa.Const); isC && k.Value == nil {
+					return true
+				}
+			}
+			return false
+		case *ssa.Jump:
+			b = b.Succs[0]
+		default:
+			return false
+		}
+	}
+	return false
+}
+
+// ---- T-PAIR: prefix and suffix SEI NAL units are recognised together ------------------------------------------------
+
+// ruleSEIPrefixSuffix (T-PAIR): a function that compares an hevc.NaluType with NALU_SEI_PREFIX (39) also compares it
+// with NALU_SEI_SUFFIX (40): both NAL unit types carry SEI messages, and a parser that knows only one refuses or skips
+// the messages of the other.
+func ruleSEIPrefixSuffix(c *Ctx, r *Report) int {
+	n := 0
+	for _, f := range c.RepoFuncs(nil) {
+		if f.Synthetic != "" {
+			continue
+		}
+		has := map[int64]token.Pos{}
+		for _, b := range f.Blocks {
+			for _, ins := range b.Instrs {
+				bo, ok := ins.(*ssa.BinOp)
+				if !ok || (bo.Op != token.EQL && bo.Op != token.NEQ) {
+					continue
+				}
+				for _, o := range []ssa.Value{bo.X, bo.Y} {
+					k, isC := o.(*ssa.Const)
+					if !isC || k.Value == nil || typeName(k.Type()) != "NaluType" {
+						continue
+					}
+					if nt, ok := k.Type().(*types.Named); !ok || nt.Obj().Pkg() == nil || nt.Obj().Pkg().Name() != "hevc" {
+						continue
+					}
+					if v, ok := constant.Int64Val(constant.ToInt(k.Value)); ok && (v == 39 || v == 40) {
+						has[v] = bo.Pos()
+					}
+				}
+			}
+		}
+		if len(has) == 0 {
+			continue
+		}
+		n++
+		key := SSAFuncName(f) + ":sei-prefix-and-suffix"
+		if len(has) == 2 {
+			r.OK("T-PAIR", key, c.Pos(has[39]), "prefix and suffix SEI NAL unit types are tested together")
+		} else {
+			var at token.Pos
+			for _, p := range has {
+				at = p
+			}
+			r.Bad("T-PAIR", key, c.Pos(at), "only one of NALU_SEI_PREFIX / NALU_SEI_SUFFIX is tested: SEI messages carried in the other NAL unit type are refused or skipped")
+		}
+	}
+	return n
+}
+
+// ---- DEP: the segmenter adds samples under the output track id ------------------------------------------------
+
+// ruleSegmenterOutputTrackID (DEP): in examples/segmenter every AddFullSampleToTrack / AddSampleToTrack call passes
+// the output track id the tool assigned (the trackID field of its Track, set from the output init segment), not an id
+// read from the input trak: the trafs of the fragment are looked up by the output id.
+func ruleSegmenterOutputTrackID(c *Ctx, r *Report) int {
+	n := 0
+	for _, f := range libFuncs(c, func(f *ssa.Function) bool { return strings.HasPrefix(SSAFuncName(f), "examples/segmenter.") }) {
+		idx := 0
+		for _, b := range f.Blocks {
+			for _, ins := range b.Instrs {
+				call, ok := ins.(*ssa.Call)
+				if !ok {
+					continue
+				}
+				h := call.Call.StaticCallee()
+				if h == nil || (h.Name() != "AddFullSampleToTrack" && h.Name() != "AddSampleToTrack") || len(call.Call.Args) < 3 {
+					continue
+				}
+				n++
+				idx++
+				key := fmt.Sprintf("%s:%s#%d:output-track-id", SSAFuncName(f), h.Name(), idx)
+				sl := backSlice(c, call.Call.Args[2], 0)
+				switch {
+				case sliceHas(sl, "field", "TkhdBox.TrackID"):
+					r.Bad("DEP", key, c.Pos(call.Pos()), "the sample is added under a track id read from a trak box, not under the output track id the tool assigned: with input ids that differ from the output ids the sample lands in another track's traf")
+				case sliceHas(sl, "field", ".trackID"):
+					r.OK("DEP", key, c.Pos(call.Pos()), "the sample is added under the tool's output track id")
+				default:
+					r.Undecided("DEP", key, c.Pos(call.Pos()), "the origin of the track id argument was not resolved: "+sliceNames(sl))
+				}
+			}
+		}
+	}
+	return n
 }
